@@ -8,6 +8,7 @@ source variants that mean the same:
   not not x                  ->  x                (only where the value is used as a truth value)
   if <negative test>: A else: B -> if <positive test>: B else: A   (also conditional expressions; elif chains untouched)
   CONST OP x                 ->  x OP' CONST      (literal, ALL_CAPS constant or enum member moved to the right-hand side)
+  x = E; return x            ->  return E         (x bound and read nowhere else: the temporary in front of a return)
 
 Assumption (stated in DESIGN.md): comparison operators in bumble's protocol code act on ints, bytes, enums and
 addresses, for which `not (a < b)` and `a >= b` agree (no NaN, no partial orders).
@@ -166,7 +167,65 @@ class Canon(ast.NodeTransformer):
         return node
 
 
+class _InlineReturnTemp(ast.NodeTransformer):
+    """x = E; return x   ->   return E     when x is a local bound only there and read only in that return
+    (the temporary a refactor introduces in front of a return; evaluation order and value are unchanged)."""
+
+    def _func(self, node):
+        self.generic_visit(node)
+        counts = {}
+        for n in ast.walk(node):
+            if isinstance(n, ast.Name):
+                counts[n.id] = counts.get(n.id, 0) + 1
+            elif isinstance(n, (ast.Global, ast.Nonlocal)):
+                for nm in n.names:
+                    counts[nm] = counts.get(nm, 0) + 10
+            elif isinstance(n, ast.arg):
+                counts[n.arg] = counts.get(n.arg, 0) + 10
+
+        def pair(a, b):
+            return isinstance(a, ast.Assign) and len(a.targets) == 1 and isinstance(a.targets[0], ast.Name) and isinstance(b, ast.Return) \
+                and isinstance(b.value, ast.Name) and b.value.id == a.targets[0].id
+        pairs = {}
+        for n in ast.walk(node):
+            for fld in ('body', 'orelse', 'finalbody'):
+                blk = getattr(n, fld, None)
+                if isinstance(blk, list):
+                    for a, b in zip(blk, blk[1:]):
+                        if pair(a, b):
+                            pairs[a.targets[0].id] = pairs.get(a.targets[0].id, 0) + 1
+
+        def fix(block):
+            out, i = [], 0
+            while i < len(block):
+                a = block[i]
+                b = block[i + 1] if i + 1 < len(block) else None
+                # every occurrence of the name in the function belongs to such a pair
+                if pair(a, b) and counts.get(a.targets[0].id) == 2 * pairs.get(a.targets[0].id, 0):
+                    out.append(ast.copy_location(ast.Return(value=a.value), a))
+                    i += 2
+                    continue
+                out.append(a)
+                i += 1
+            return out
+        for n in ast.walk(node):
+            for fld in ('body', 'orelse', 'finalbody'):
+                blk = getattr(n, fld, None)
+                if isinstance(blk, list) and blk and all(isinstance(x, ast.stmt) for x in blk):
+                    setattr(n, fld, fix(blk))
+            if isinstance(n, ast.Try):
+                for h in n.handlers:
+                    h.body = fix(h.body)
+            if isinstance(n, ast.Match):
+                for c in n.cases:
+                    c.body = fix(c.body)
+        return node
+    visit_FunctionDef = _func
+    visit_AsyncFunctionDef = _func
+
+
 def canonical(tree: ast.AST) -> ast.AST:
     tree = Canon().visit(tree)
+    tree = _InlineReturnTemp().visit(tree)
     ast.fix_missing_locations(tree)
     return tree
